@@ -465,6 +465,24 @@ static void print_iter(const cstl_map_iterator_t * it, int detached)
 
 /* ------------------------------------------------------------------ */
 
+/* the node at in-order position *rank (counted down to 0 while walking) */
+static const struct cstl_bintree_node * nth_inorder(const struct cstl_bintree_node * bn, size_t * rank)
+{
+    const struct cstl_bintree_node * r;
+    if (bn == NULL) {
+        return NULL;
+    }
+    r = nth_inorder(bn->l, rank);
+    if (r != NULL) {
+        return r;
+    }
+    if (*rank == 0) {
+        return bn;
+    }
+    (*rank)--;
+    return nth_inorder(bn->r, rank);
+}
+
 /* element id 0 in an insert: the lowest id that is not in the tree */
 static long auto_id(const char * in, long id)
 {
@@ -635,6 +653,31 @@ static void op(int argc, char ** argv)
         }
         in[id] = 1;
         outf("ok");
+    } else if (!strcmp(o, "insatr") && argc == 4) {
+        const struct cstl_bintree * t = kind == K_BT ? &bt : &rb.t;
+        long id = auto_id(in, 0), h;
+        size_t rank = h_size(argv[3]);
+        const struct cstl_bintree_node * hn;
+        if (cstl_bintree_size(t) == 0 || id > NE) {
+            h_stop("bad-op");
+            return;
+        }
+        rank %= cstl_bintree_size(t);
+        hn = nth_inorder(t->root, &rank);
+        h = id_of(kind, hn);
+        if (h < 1 || h > NE) {
+            h_stop("bad-op");
+            return;
+        }
+        if (kind == K_BT) {
+            btpool[id].key = (int)h_int(argv[2]);
+            cstl_bintree_insert(&bt, &btpool[id], &btpool[h]);
+        } else {
+            rbpool[id].key = (int)h_int(argv[2]);
+            cstl_rbtree_insert(&rb, &rbpool[id], &rbpool[h]);
+        }
+        in[id] = 1;
+        outf("ok h=%ld", h);
     } else if (!strcmp(o, "find") && argc == 3) {
         const void * par = NULL, * f;
         if (kind == K_BT) {
